@@ -57,7 +57,16 @@ class World:
     # ---------------------------------------------------------------- recording collaborators
     def recording_field(self, index, outcomes=(FIELD_OK, FIELD_BAD), name=None):
         name = name or "f%d" % index
-        field = Obj(self.model.cls("cutplace.fields.AbstractFieldFormat"), {"_field_name": name}, label=name)
+        if index == 0:
+            # the first field is declared as permissively as a field can be (Text, may be empty, no length, no rule):
+            # even such a field has to see every cell - the data format's allowed characters apply to it
+            no_limit = Obj(self.model.cls("cutplace.ranges.Range"), {"_items": None, "_lower_limit": None, "_upper_limit": None,
+                                                                    "_description": None}, label="no length")
+            field = Obj(self.model.cls("cutplace.fields.TextFieldFormat"), {
+                "_field_name": name, "_is_allowed_to_be_empty": True, "_length": no_limit, "_rule": "", "_empty_value": "",
+                "_example": None}, label=name)
+        else:
+            field = Obj(self.model.cls("cutplace.fields.AbstractFieldFormat"), {"_field_name": name}, label=name)
         world = self
 
         @stub
